@@ -298,7 +298,11 @@ def tables(sp, b, gp, model):
             tab.append([x, 'EXC:' + type(e).__name__])
     objs = [o.name for o in gp.objectives] if _safe(lambda: gp.objectives) is not None else 'ERR'
     cons = [c.name for c in gp.constraints] if _safe(lambda: gp.constraints) is not None else 'ERR'
-    return {'dv': dv, 'table': S.digest(tab), 'objectives': objs, 'constraints': cons}
+    try:   # which connection encoder the (time-limited, hence load-dependent) selection handed to this processor
+        conn_enc = sorted(repr(d[0].encoder) for d in gp._conn_choice_data_map.values())
+    except Exception:  # noqa
+        conn_enc = None
+    return {'dv': dv, 'table': S.digest(tab), 'objectives': objs, 'constraints': cons, 'conn_enc': conn_enc}
 
 
 def _safe(f):
@@ -438,6 +442,7 @@ def main(run):
         r['samples'] = keep
     viols = []
     n_cmp = 0
+    n_sel_differs = [0]
     for i, by_hs in per.items():
         if len(by_hs) < 2:
             continue
@@ -455,9 +460,16 @@ def main(run):
                     a, c = by_hs[ref_hs].get(enc), rec.get(enc)
                     if a != c:
                         if isinstance(a, dict) and isinstance(c, dict):
+                            if a.get('conn_enc') != c.get('conn_enc'):
+                                # the two processes were handed different connection encoders: which candidate wins
+                                # the time-limited scoring depends on machine load (see C12); counted, not judged
+                                n_sel_differs[0] += 1
+                                continue
                             what += ['%s:%s' % (enc, k) for k in a if a[k] != c.get(k)]
                         else:
                             what.append(enc)
+                if not what:
+                    break
                 viols.append({'symptom': 'design_variables_or_decoding_differ_between_processes', 'spec': sp,
                               'flags': S.classify(sp), 'where': {},
                               'detail': {'hash_seeds': [ref_hs, hs], 'differs': what,
@@ -479,7 +491,9 @@ def main(run):
                                              'after': rec['dv_names']}})
     extra = {'cross_process_specs_compared': n_cmp, 'hash_seeds': ['0', '1', '2', '3'],
              'pickles_exchanged_between_processes': sum(len(v) for v in p2.values())}
-    run.results.append({'evaluations': 0, 'violations': viols, 'counters': {'monitor_cross_process_comparisons': n_cmp},
+    run.results.append({'evaluations': 0, 'violations': viols,
+                        'counters': {'monitor_cross_process_comparisons': n_cmp,
+                                     'cross_process_encoder_selection_differs_not_judged': n_sel_differs[0]},
                         'nontrivial': []})
     run.finish('generated DSGs (selection, constraints, DV/metric nodes, connection choices, duplicate choice ids): copy '
                '== original with equal hash; every single structural edit (node, edge of each type, start node, '
